@@ -342,6 +342,8 @@ def is_reducible(cfg):
 
 
 def time_step(cfg):
+    if cfg.get("dt0"):
+        return 0.0  # an instantaneous step of a viscoelastic behaviour (dashpots rigid: glassy response; the yield surface still bounds the stress)
     return DT if (cfg["rate"] != "none" or cfg["branches"] != "none") else 0.0
 
 
@@ -603,6 +605,8 @@ def run_material(case):
 
 def _run_material(case):
     cfg = {k: case[k] for k in FACTORS}
+    if case.get("dt0"):
+        cfg["dt0"] = True
     lay = Layout(cfg)
     behT = build_behavior(cfg, "auto")
     behT._tol, behT._planeStress_tol = 1e-13, 1e-12  # documented local solver settings
@@ -933,6 +937,10 @@ def cases(tier, seed):
                 out.append({"kind": "mat", **c, "depth": d})
         sims = {k: 4 for k in SIM_CFGS}
         sims["J2lin-PE-QUAD4"] = sims["J2voceAF-PS-mixed"] = 5
+    # instantaneous steps (dt = 0 exactly) of the behaviours that combine a yield surface with Maxwell branches
+    for c in _material_cfgs(2 if tier == "quick" else 3):
+        if c["branches"] != "none" and c["yield"] != "none":
+            out.append({"kind": "mat", **c, "depth": 2, "dt0": True})
     # the plane-stress condition is enforced by an iteration over the WHOLE batch handed to Integrate: the same paths integrated
     # one point per call (what a uniformly strained mesh, or a single material point, gives), depth 2; the oracle is unchanged
     seen_ps = set()
@@ -1184,7 +1192,7 @@ def run_relaw(case):
     dt = time_step(cfg)
     v, obs, ntr = [], [], 0
     # first use with the law of the constructor (fills whatever the behaviour keeps), then the change on the live object
-    integrate(behA, L[:4].copy(), np.zeros((4, lay.n)), dt, stats)
+    integrate(behA, L.copy(), np.zeros((len(L), lay.n)), dt, stats)  # same batch shape as the first level below
     behA.elastic.E = E2
     behA.elastic.v = v2
     f_eps, f_z, f_names = np.zeros((1, n)), np.zeros((1, lay.n)), [[]]
